@@ -21,6 +21,7 @@ pub mod parse;
 pub mod proto;
 pub mod shim;
 pub mod storage;
+pub mod surface;
 pub mod world;
 
 pub use encode::*;
